@@ -30,6 +30,9 @@ type C13Op struct {
 	// Hold (dump): the caller takes the first entry only and keeps the dumper, unread and
 	// unclosed, until an undump (or for good)
 	Hold bool `json:"hold,omitempty"`
+	// Dead: the operation is called with a context that is already cancelled (the request's
+	// deadline has passed): every driver call it makes fails
+	Dead bool `json:"dead,omitempty"`
 }
 
 type C13Case struct {
@@ -54,6 +57,9 @@ func (c C13Case) String() string {
 		}
 		if op.Hold {
 			x += " (held)"
+		}
+		if op.Dead {
+			x += " (dead ctx)"
 		}
 		s = append(s, x)
 	}
@@ -130,6 +136,12 @@ func runC13(c C13Case) (res c13Result) {
 		var dumped map[string][]byte
 		dumpLog := -1 // length of the driver log when Dump itself returned
 		val := []byte(fmt.Sprintf("v%d", i))
+		ctx := ctx
+		if op.Dead {
+			dctx, cancel := context.WithCancel(ctx)
+			cancel()
+			ctx = dctx
+		}
 		p := catchPanic(func() {
 			switch op.Kind {
 			case "lang":
@@ -567,8 +579,18 @@ var genC13Op = rapid.Custom(func(t *rapid.T) C13Op {
 	return C13Op{Kind: "abort"}
 })
 
+// genC13OpDead: now and then the caller's context is already done
+var genC13OpDead = rapid.Custom(func(t *rapid.T) C13Op {
+	op := genC13Op.Draw(t, "op")
+	switch op.Kind {
+	case "put", "get", "start", "stop", "abort":
+		op.Dead = chancePct(t, 8, "dead")
+	}
+	return op
+})
+
 func genC13(t *rapid.T) C13Case {
-	c := C13Case{Ops: genSlice(t, genC13Op, 1, 25, "ops"), Translated: chancePct(t, 30, "translated"), Lenient: chancePct(t, 30, "lenient")}
+	c := C13Case{Ops: genSlice(t, genC13OpDead, 1, 25, "ops"), Translated: chancePct(t, 30, "translated"), Lenient: chancePct(t, 30, "lenient")}
 	nf := uniformN(t, 3, "nfaults")
 	// roughly three primitive calls per operation
 	for i := 0; i < nf; i++ {
